@@ -49,13 +49,17 @@ func authorize(wd *world.World) (string, *grant) {
 		"audience":      {apiAud},
 		"state":         {"state-0123456789"},
 	}
-	mode := zz.Choice("stored.redirect", 4)
-	if zz.Thorough() && zz.Bool("c1.public") || mode == 3 {
+	nmodes := 4
+	if zz.Thorough() {
+		nmodes = 5
+	}
+	mode := zz.Choice("stored.redirect", nmodes)
+	if mode >= 3 {
 		wd.Store.Clients["c1"].(*fosite.DefaultClient).Public = true
 		zz.Cover("owner:public-client", true)
 	}
 	switch mode {
-	case 0: // none sent: the single registered URI is used, nothing is bound
+	case 0, 4: // none sent: the single registered URI is used, nothing is bound
 		zz.Cover("stored-redirect:absent", true)
 	case 1, 3:
 		g.redirect = cb1
@@ -71,13 +75,14 @@ func authorize(wd *world.World) (string, *grant) {
 	// the resource owner grants a symbolic subset
 	g.scopes = []string{"offline"}
 	if zz.Thorough() {
-		if zz.Bool("grant.photos") {
-			g.scopes = append(g.scopes, "photos")
-		}
-		if zz.Bool("grant.mail") {
-			g.scopes = append(g.scopes, "mail")
-		}
-		if zz.Bool("grant.audience") {
+		switch zz.Choice("grant", 4) {
+		case 1:
+			g.scopes = []string{"offline", "photos"}
+		case 2:
+			g.scopes = []string{"offline", "mail"}
+			g.audience = []string{apiAud}
+		case 3:
+			g.scopes = []string{"offline", "photos", "mail"}
 			g.audience = []string{apiAud}
 		}
 	} else if zz.Bool("grant.all") {
@@ -130,7 +135,12 @@ func stored(wd *world.World) (int, int) {
 func run() {
 	b := getBounds()
 	wd := world.New(world.Options{})
-	if zz.Thorough() && zz.Bool("prefix.other-grant") {
+	variant := 0 // thorough: 1 = a longer history first, 2 = the presenter uses the other client's secret
+	if zz.Thorough() {
+		variant = zz.Choice("variant", 3)
+	}
+	if variant == 1 {
+		zz.Cover("history:other-grant-redeemed-and-refreshed-first", true)
 		// a longer history: another client's grant is redeemed and refreshed first
 		c2code, _, err := wd.AuthorizeCode("c2", []string{"offline", "photos"}, nil)
 		zz.Assume(err == nil)
@@ -147,8 +157,9 @@ func run() {
 	// the presenter knows the secret of the client it names (map lookup forks c1 / c2 / unregistered);
 	// thorough: it may also present the other client's secret
 	secret := map[string]string{"c1": world.Secret1, "c2": world.Secret2}[cl]
-	if zz.Thorough() && zz.Bool("secret.swapped") {
+	if variant == 2 {
 		secret = map[string]string{world.Secret1: world.Secret2, world.Secret2: world.Secret1}[secret]
+		zz.Cover("attempt:other-clients-secret", true)
 	}
 	rp := zz.String("redirect", b.redirL) // "" = parameter absent
 	form := url.Values{
@@ -159,13 +170,15 @@ func run() {
 	// arbitrary scope / audience parameters in the token request ("" = absent)
 	var sc, au string
 	if zz.Thorough() {
-		sc, au = zz.String("scope", b.L), zz.String("audience", b.L)
+		// two words each (either may be empty)
+		sc = zz.StringEx("scope", b.L/2, " ") + " " + zz.StringEx("scope", b.L/2, " ")
+		au = zz.StringEx("audience", b.L/2, " ") + " " + zz.StringEx("audience", b.L/2, " ")
 	} else {
 		sc, au = zz.StringEx("scope", b.L, " "), zz.StringEx("audience", b.L, " ")
 	}
 	form.Set("scope", sc)
 	form.Set("audience", au)
-	zz.Cover("attempt:with-scope-and-audience-parameters", sc != "" && au != "")
+	zz.Cover("attempt:with-scope-and-audience-parameters", sc != "" && sc != " " && au != "" && au != " ")
 	d := time.Duration(zz.Int("advance", 0, int64(2*codeLife)))
 	// at the expiry instant itself either verdict is accepted (and the native clock drifts): stay 1s away from it
 	zz.Assume(zz.Or(d < codeLife-slack, d > codeLife+slack))
